@@ -803,6 +803,162 @@ struct Gen {
 		}
 	}
 
+
+	/* ---------------------------------------------------------------- themed programs (tagged by the prefix of their id) */
+
+	Node TryStmt(Node body, Node handler) { return N2("try", NL("blk", { body }), NL("blk", { handler })); }
+
+	/* a statement that raises a script error when evaluated: explicit throw, type error, unknown variable, failing native,
+	 * division by zero, bad index — optionally buried in a nested expression so that several frames unwind */
+	Node Thrower()
+	{
+		Node bad;
+		switch (rng.below(8)) {
+			case 0: return N1("throw", N0("s", "E"));
+			case 1: bad = N2("op", N0("null"), N0("null"), "+"); break;
+			case 2: bad = N0("v", "undefined_name"); break;
+			case 3: bad = Method(NL("arr", { Num("1") }), "get", { Num("5") }); break;
+			case 4: bad = Method(N0("s", "abc"), "substr", { Num("9") }); break;
+			case 5: bad = N2("op", Num("1"), Num("0"), "/"); break;
+			case 6: bad = N2("idx", NL("arr", { Num("1") }), Num("7")); break;
+			default: bad = N2("op", N0("b1"), Num("1"), "<"); break;
+		}
+		int nest = rng.below(5);
+		for (int i = 0; i < nest; i++)
+			bad = rng.coin() ? N2("op", Num(std::to_string(1 + rng.below(5))), bad, "+") : NL("arr", { bad });
+		return N1("var", bad, "t");
+	}
+
+	/* many CAUGHT exceptions inside one frame (loop around try/except), then an expression of some depth: the frame depth
+	 * must be balanced on every exit path of Expression::Evaluate */
+	Node CatchLoop()
+	{
+		static const std::vector<int> counts = { 20, 60, 120, 160, 200, 310, 400 };
+		std::vector<Node> ks;
+		ks.push_back(N1("var", Num("0"), "c"));
+		auto loops = [&](std::vector<Node>& out) {
+			int nl = 1 + rng.below(2);
+			for (int l = 0; l < nl; l++) {
+				int n = counts[rng.below(counts.size())];
+				Node body = TryStmt(Thrower(), N2("set", N0("v", "c"), Num("1"), "+="));
+				if (rng.coin()) {
+					std::string i = "i" + std::to_string(l);
+					out.push_back(N1("var", Num("0"), i));
+					out.push_back(N2("while", N2("op", N0("v", i), Num(std::to_string(n)), "<"),
+						NL("blk", { N2("set", N0("v", i), Num("1"), "+="), body })));
+				} else {
+					Node f = N0("for"); f.names = { "x" + std::to_string(l), "" };
+					f.k.push_back(Sys("range", { Num(std::to_string(n)) }));
+					f.k.push_back(NL("blk", { body }));
+					out.push_back(f);
+				}
+			}
+		};
+		Node tail = Num("1");
+		int depth = 5 + rng.below(120);
+		for (int i = 0; i < depth; i++) tail = N2("op", Num("1"), tail, "+");
+		if (pm(350)) {
+			/* inside a function frame */
+			std::vector<Node> body;
+			loops(body);
+			body.push_back(N1("ret", NL("arr", { N0("v", "c"), tail })));
+			Node f = N0("fn"); f.uses = { "c" }; f.k.push_back(NL("blk", body));
+			ks.push_back(N1("var", f, "f"));
+			ks.push_back(NL("call", { N0("v", "f") }));
+		} else {
+			loops(ks);
+			ks.push_back(NL("arr", { N0("v", "c"), tail }));
+		}
+		return NL("blk", ks);
+	}
+
+	/* closures with use() called several times: every call starts from a fresh copy of the captured variables and from
+	 * fresh locals */
+	Node ClosureProgram()
+	{
+		std::vector<Node> ks;
+		int variant = rng.below(5);
+		int ncalls = 2 + rng.below(3);
+		std::string k0 = std::to_string(1 + rng.below(9));
+		if (variant == 0 || variant == 4) {
+			/* captured counter modified in the body */
+			static const std::vector<std::string> ops = { "+=", "-=", "*=" };
+			ks.push_back(N1("var", variant == 4 ? N0("s", "s") : Num(k0), "c"));
+			Node f = N0("fn"); f.names = { "d" }; f.uses = { "c" };
+			std::vector<Node> body;
+			body.push_back(N2("set", N0("v", "c"), N0("v", "d"), variant == 4 ? "+=" : pick(ops)));
+			if (rng.coin()) body.push_back(N1("var", N2("op", N0("v", "c"), Num("1"), "+"), "loc"));
+			body.push_back(N1("ret", N0("v", "c")));
+			f.k.push_back(NL("blk", body));
+			ks.push_back(N1("var", f, "f"));
+			std::vector<Node> calls;
+			for (int i = 0; i < ncalls; i++) calls.push_back(NL("call", { N0("v", "f"), variant == 4 ? N0("s", std::string(1, 'a' + i)) : Num(std::to_string(1 + rng.below(5))) }));
+			calls.push_back(N0("v", "c"));
+			ks.push_back(NL("arr", calls));
+		} else if (variant == 1) {
+			/* a local that is only assigned on some paths must be unknown on the others, whatever earlier calls did */
+			ks.push_back(N1("var", Num(k0), "k"));
+			Node f = N0("fn"); f.names = { "a" }; f.uses = { "k" };
+			Node c = N0("if"); c.k.push_back(N0("v", "a")); c.k.push_back(NL("blk", { N1("var", N2("op", N0("v", "a"), N0("v", "k"), "+"), "t") }));
+			f.k.push_back(NL("blk", { c, N1("ret", N0("v", "t")) }));
+			ks.push_back(N1("var", f, "f"));
+			std::vector<Node> res;
+			for (int i = 0; i < ncalls; i++) {
+				std::string r = "r" + std::to_string(i);
+				ks.push_back(N1("var", N0("s", "-"), r));
+				std::string arg = (i == 0) ? std::to_string(1 + rng.below(9)) : (rng.coin() ? "0" : std::to_string(rng.below(9)));
+				ks.push_back(TryStmt(N2("set", N0("v", r), NL("call", { N0("v", "f"), Num(arg) }), "="), N2("set", N0("v", r), N0("s", "E"), "=")));
+				res.push_back(N0("v", r));
+			}
+			ks.push_back(NL("arr", res));
+		} else if (variant == 2) {
+			/* recursion through an argument: the parameter is read after the inner call returned */
+			ks.push_back(N1("var", Num(k0), "k"));
+			Node f = N0("fn"); f.names = { "self", "n" }; f.uses = { "k" };
+			Node c = N0("if"); c.k.push_back(N2("op", N0("v", "n"), Num("0"), "<=")); c.k.push_back(NL("blk", { N1("ret", N0("v", "k")) }));
+			Node inner = NL("call", { N0("v", "self"), N0("v", "self"), N2("op", N0("v", "n"), Num("1"), "-") });
+			std::vector<Node> body = { c, N1("var", inner, "r") };
+			if (rng.coin()) body.push_back(N2("set", N0("v", "k"), N0("v", "n"), "+="));
+			body.push_back(N1("ret", N2("op", N0("v", "r"), N2("op", N0("v", "n"), Num("10"), "*"), "+")));
+			f.k.push_back(NL("blk", body));
+			ks.push_back(N1("var", f, "f"));
+			std::vector<Node> calls;
+			for (int i = 0; i < ncalls; i++) calls.push_back(NL("call", { N0("v", "f"), N0("v", "f"), Num(std::to_string(1 + rng.below(5))) }));
+			ks.push_back(NL("arr", calls));
+		} else {
+			/* captured container re-bound (not mutated in place) inside the body */
+			ks.push_back(N1("var", NL("arr", { Num(k0) }), "a"));
+			Node f = N0("fn"); f.names = { "x" }; f.uses = { "a" };
+			f.k.push_back(NL("blk", { N2("set", N0("v", "a"), NL("arr", { N0("v", "x") }), "+="), N1("ret", Method(N0("v", "a"), "len")) }));
+			ks.push_back(N1("var", f, "f"));
+			std::vector<Node> calls;
+			for (int i = 0; i < ncalls; i++) calls.push_back(NL("call", { N0("v", "f"), Num(std::to_string(rng.below(9))) }));
+			calls.push_back(N0("v", "a"));
+			ks.push_back(NL("arr", calls));
+		}
+		return NL("blk", ks);
+	}
+
+	Node MixedElem(int d)
+	{
+		switch (rng.below(d > 0 ? 9 : 7)) {
+			case 0: case 1: return Num(std::to_string(rng.below(4)));
+			case 2: case 3: return N0("s", std::string(1, 'a' + rng.below(3)));
+			case 4: return N0(rng.coin() ? "b1" : "b0");
+			case 5: return N0("null");
+			case 6: return NL("dict", { N2("set", N0("v", "a"), Num(std::to_string(rng.below(3))), "=") });
+			case 7: { std::vector<Node> ks; int n = rng.below(3); for (int i = 0; i < n; i++) ks.push_back(MixedElem(d - 1)); return NL("arr", ks); }
+			default: return N0("s", "");
+		}
+	}
+
+	/* array - array over arbitrary element types: defined for every pair (elements are compared with ==) */
+	Node ArrSub()
+	{
+		auto lit = [&]() { std::vector<Node> ks; int n = rng.below(6); for (int i = 0; i < n; i++) ks.push_back(MixedElem(1)); return NL("arr", ks); };
+		return NL("blk", { N2("op", lit(), lit(), "-") });
+	}
+
 	Node Program()
 	{
 		std::vector<Node> ks;
@@ -1027,7 +1183,8 @@ int main(int argc, char **argv)
 		else deep.push_back({ k, 700 });
 	}
 	long nDeep = (long)deep.size();
-	long total = nProg + nExpr + nChaos + nHostile + nDeep;
+	long nTheme = thorough ? 30000 : 1500;   /* catch loops, closures called repeatedly, array subtraction: a third each */
+	long total = nProg + nExpr + nChaos + nHostile + nDeep + nTheme;
 	RunAll(total, [&](long i) {
 		Case c;
 		c.id = std::to_string(i);
@@ -1040,7 +1197,16 @@ int main(int argc, char **argv)
 			c.kind = 'X';
 			if (r.below(4) == 0) c.text = Bytes(r);
 			else { Gen g(s ^ 77, r.below(2) ? 4 : 200); Node p = r.coin() ? g.Program() : g.ExprProgram(); c.text = Mutate(r, PrintProgram(p, r.coin())); }
-		} else { auto& d = deep[i - (nProg + nExpr + nChaos + nHostile)]; c.kind = 'P'; c.id = d.first + std::to_string(d.second); c.ast = Deep(d.first, d.second); }
+		} else if (i < nProg + nExpr + nChaos + nHostile + nDeep) { auto& d = deep[i - (nProg + nExpr + nChaos + nHostile)]; c.kind = 'P'; c.id = d.first + std::to_string(d.second); c.ast = Deep(d.first, d.second); }
+		else {
+			Gen g(s, 0);
+			c.kind = 'P';
+			switch (i % 3) {
+				case 0: c.id = "catchloop" + std::to_string(i); c.ast = g.CatchLoop(); break;
+				case 1: c.id = "scope" + std::to_string(i); c.ast = g.ClosureProgram(); break;
+				default: c.id = "arrsub" + std::to_string(i); c.ast = g.ArrSub(); break;
+			}
+		}
 		return c;
 	});
 	_exit(0);
